@@ -66,7 +66,7 @@ bool CheckRegular(const Polygons& out, const Samples& smp, double guard, double 
   if (edges.size() <= 400) {
     for (size_t i = 0; i < edges.size(); ++i)
       for (size_t j = i + 1; j < edges.size(); ++j)
-        if (oracle::ProperCross(edges[i].first, edges[i].second, edges[j].first, edges[j].second, 4 * tol + guard)) {
+        if (oracle::ProperCross(edges[i].first, edges[i].second, edges[j].first, edges[j].second, guard)) {
           o.fail(std::string("cross:self-crossing-") + tag, verif::fmt("output edges %zu and %zu cross properly", i, j));
           return false;
         }
@@ -117,7 +117,7 @@ void ModeFill(Tape& t, Outcome& o) {
   vec2 lo(1e300, 1e300), hi(-1e300, -1e300);
   Bounds(in, lo, hi);
   double scale = ScaleOf(lo, hi), tol = cs.GetTolerance();
-  double guard = 64 * tol + 1e-9 * scale;
+  double guard = 1e-9 * scale;  // >> epsilon (~1.4e-12*scale); deliberately not the propagated tolerance
   Samples smp;
   smp.uniform(t, lo, hi, 80);
   smp.nearEdges(in, scale, 30);
@@ -186,7 +186,7 @@ void ModeProgram(Tape& t, Outcome& o) {
       if (batch) Bounds(pc, lo, hi);
       if (lo.x > hi.x) { lo = vec2(0, 0); hi = vec2(1, 1); }
       double scale = ScaleOf(lo, hi), tol = std::max({R.GetTolerance(), A.GetTolerance(), B.GetTolerance()});
-      double guard = 64 * tol + 1e-9 * scale;
+      double guard = 1e-9 * scale;
       Samples smp;
       smp.uniform(t, lo, hi, 50);
       smp.nearEdges(pr, scale, 24);
@@ -205,7 +205,7 @@ void ModeProgram(Tape& t, Outcome& o) {
       pool.push_back(R);
     } else {
       // transform / warp: p in T(A) <=> T^-1 p in A, checked by mapping sample points forward
-      int k = t.range(0, 5);
+      int k = t.range(0, 6);
       CrossSection R;
       std::function<vec2(vec2)> fwd;
       if (k == 0) { vec2 v(t.real(-1, 1), t.real(-1, 1)); R = A.Translate(v); fwd = [v](vec2 p) { return p + v; }; d << "Translate(c" << ia << ")"; }
@@ -213,6 +213,18 @@ void ModeProgram(Tape& t, Outcome& o) {
       else if (k == 2) { vec2 s(t.real(0.3, 2) * (t.chance(40) ? -1 : 1), t.real(0.3, 2)); R = A.Scale(s); fwd = [s](vec2 p) { return vec2(p.x * s.x, p.y * s.y); }; d << "Scale(c" << ia << "," << gen::num(s.x) << "," << gen::num(s.y) << ")"; }
       else if (k == 3) { vec2 ax(t.real(-1, 1), 0.2 + t.unit()); R = A.Mirror(ax); double l2 = ax.x * ax.x + ax.y * ax.y; fwd = [ax, l2](vec2 p) { double dd = 2 * (p.x * ax.x + p.y * ax.y) / l2; return vec2(p.x - dd * ax.x, p.y - dd * ax.y); }; d << "Mirror(c" << ia << ")"; }
       else if (k == 4) { mat2x3 m; m[0] = vec2(1 + t.real(-0.4, 0.4), t.real(-0.4, 0.4)); m[1] = vec2(t.real(-0.4, 0.4), 1 + t.real(-0.4, 0.4)); m[2] = vec2(t.real(-1, 1), t.real(-1, 1)); R = A.Transform(m); fwd = [m](vec2 p) { return m[0] * p.x + m[1] * p.y + m[2]; }; d << "Transform(c" << ia << ")"; }
+      else if (k == 6) {
+        // inflate the propagated tolerance without changing the geometry: scale up
+        // by 10^e in x and straight back (lazy transforms); later Booleans must still work at epsilon
+        double e = std::pow(10.0, t.range(6, 12));
+        // (no Boolean at the extreme aspect ratio: epsilon is relative to the overall
+        // scale, so that would legitimately merge the unscaled axis)
+        CrossSection big = A.Scale(vec2(e, 1.0));
+        (void)big.NumVert();  // materialise at the large scale: this is where the tolerance is propagated
+        R = big.Scale(vec2(1.0 / e, 1.0));
+        fwd = [](vec2 p) { return p; };
+        d << "InflateTolerance(c" << ia << ",x" << gen::num(e) << ")";
+      }
       else { double amp = t.real(0.005, 0.03); auto w = [amp](vec2 p) { return vec2(p.x + amp * std::sin(2 * p.y), p.y + amp * std::sin(2 * p.x + 1)); }; R = t.flip() ? A.Warp([w](vec2& p) { p = w(p); }) : A.WarpBatch([w](VecView<vec2> vs) { for (auto& p : vs) p = w(p); }); fwd = nullptr; d << "Warp(c" << ia << ")"; }
       Polygons pr = R.ToPolygons();
       vec2 lo(1e300, 1e300), hi(-1e300, -1e300);
@@ -220,7 +232,7 @@ void ModeProgram(Tape& t, Outcome& o) {
       if (lo.x > hi.x) { lo = vec2(0, 0); hi = vec2(1, 1); }
       double scale = ScaleOf(lo, hi) * 3 + 2;
       double tol = std::max(R.GetTolerance(), A.GetTolerance());
-      double guard = 64 * tol + 1e-8 * scale;
+      double guard = 1e-8 * scale;
       Samples smp;
       smp.uniform(t, lo, hi, 40);
       smp.nearEdges(pa, scale, 16);
